@@ -13,6 +13,9 @@ import (
 	regexp2 "github.com/dlclark/regexp2/v2"
 )
 
+// langCapped counts text patterns whose pattern-derived input set hit langMaxInputs (reported in the evidence).
+var langCapped int64
+
 type job struct {
 	fam   string
 	pats  []Pat
@@ -61,8 +64,21 @@ func (c *Ctx) runJobs(jobs []job, each func(jc *jobCase) (int64, int64, *Violati
 		done := c.parallel(len(jb.pats), func(i int) {
 			p := jb.pats[i]
 			jc := &jobCase{j: jb, p: p, inputs: inputs, src: p.Src}
-			if jb.prof.input == nil { // per-pattern alphabet (corpus patterns)
+			if jb.prof.input == nil { // text patterns: per-pattern alphabet plus pattern-derived inputs (lang.go)
 				jc.inputs = allStrings(patternAlphabet(p.Src), jb.maxL)
+				li, _, capped := langInputs(p.Src, jb.opts)
+				have := map[string]bool{}
+				for _, in := range jc.inputs {
+					have[string(in)] = true
+				}
+				for _, in := range li {
+					if !have[string(in)] {
+						jc.inputs = append(jc.inputs, in)
+					}
+				}
+				if capped {
+					atomic.AddInt64(&langCapped, 1)
+				}
 			}
 			if p.AST != nil {
 				jc.ast = p.AST
